@@ -56,7 +56,7 @@ Definition s_padd (self_ : (list (T A))) (plus_ : (list (T A))) : res (list (T A
   match (pdegree self_) with
   | Some d_ => let degree_ := d_ in
       match (pdegree plus_) with
-      | Some d_ => let plus_degree_ := d_ in
+      | Some d_1 => let plus_degree_ := d_1 in
           let* degree_ := if (degree_ <? plus_degree_)%nat
               then (let degree_ := plus_degree_ in
                    Ok degree_)
@@ -92,7 +92,7 @@ Definition s_psub (self_ : (list (T A))) (minus_ : (list (T A))) : res (list (T 
   match (pdegree self_) with
   | Some d_ => let degree_ := d_ in
       match (pdegree minus_) with
-      | Some d_ => let minus_degree_ := d_ in
+      | Some d_1 => let minus_degree_ := d_1 in
           let* degree_ := if (degree_ <? minus_degree_)%nat
               then (let degree_ := minus_degree_ in
                    Ok degree_)
@@ -122,7 +122,7 @@ Definition s_pmul (self_ : (list (T A))) (times_ : (list (T A))) : res (list (T 
   match (pdegree self_) with
   | Some d_ => let degree_ := d_ in
       match (pdegree times_) with
-      | Some d_ => let times_degree_ := d_ in
+      | Some d_1 => let times_degree_ := d_1 in
           let degree_ := (degree_ + times_degree_)%nat in
           let product_ := (repeat (@zero A) (degree_ + 1)%nat) in
           let* u1 := unwrap_opt (pdegree self_) in
